@@ -10,6 +10,12 @@ verus! {
 #[verifier::external_body] pub struct Anchor { _p: f64 }
 #[verifier::external_body] pub struct PentagonShape { _p: f64 }
 
+impl Anchor {
+    /// both flip flags are +-1 (hilbert.rs; proved of the real s_to_anchor in unit `hilbert`, needed by the i8 sum
+    /// `flips[0] + flips[1]` in tiling.rs::get_pentagon_vertices, verified in unit `shape`)
+    pub uninterp spec fn flips_ok(&self) -> bool;
+}
+
 impl LonLat {
     #[verifier::external_body]
     pub fn new(_longitude: f64, _latitude: f64) -> LonLat { unimplemented!() }
@@ -58,7 +64,7 @@ pub fn get_face_vertices() -> (r: PentagonShape)
 
 #[verifier::external_body]
 pub fn get_pentagon_vertices(resolution: i32, quintant: usize, anchor: &Anchor) -> (r: PentagonShape)
-    requires quintant < 5,
+    requires quintant < 5, anchor.flips_ok(),
     ensures r.nverts() == 5,
 { unimplemented!() }
 
@@ -68,6 +74,7 @@ pub fn get_pentagon_vertices(resolution: i32, quintant: usize, anchor: &Anchor) 
 #[verifier::external_body]
 pub fn s_to_anchor(s: u64, resolution: usize, orientation: Orientation) -> (r: Anchor)
     requires 1 <= resolution <= 28, s < (1u64 << ((2 * resolution) as u64)),
+    ensures r.flips_ok(),
 { unimplemented!() }
 
 // DodecahedronProjection::get_thread_local().inverse(face, origin_id): origin_id indexes the face table
